@@ -509,15 +509,11 @@ fn index_lists_stored_packs(h: &RepoHandle) -> Result<(), String> {
 
 /// state oracles after a crashed / failed big backup: a consistent prefix state, and a simple retry heals it
 fn big_state_ok(variant: u64, seed: u64, h: &RepoHandle, live: &[(SnapshotFile, Option<MemSource>)]) -> Result<(), String> {
-    let t0 = std::time::Instant::now();
     index_lists_stored_packs(h)?;
-    eprintln!("TIMING ils {:?}", t0.elapsed());
     state_ok("backup", h, live, &BTreeSet::new())?;
-    eprintln!("TIMING state_ok {:?}", t0.elapsed());
     // the retry: same source, no fault
     let src = big_source(variant, seed, 1);
     let snap = do_backup(h, &src).map_err(|e| format!("retry-{}", crate::util::errkind(&e)))?;
-    eprintln!("TIMING retry {:?}", t0.elapsed());
     index_lists_stored_packs(h).map_err(|e| format!("retry-{e}"))?;
     match check_errors_retry(h, true) {
         Some(0) => {}
@@ -525,9 +521,7 @@ fn big_state_ok(variant: u64, seed: u64, h: &RepoHandle, live: &[(SnapshotFile, 
         None => return Err("retry-check-failed".into()),
     }
     let r = h.open().and_then(|r| r.to_indexed()).map_err(|_| "retry-open-failed".to_string())?;
-    eprintln!("TIMING retry-check {:?}", t0.elapsed());
     let mut got = repo::read_back(&r, &snap).map_err(|_| "retry-snapshot-unreadable".to_string())?;
-    eprintln!("TIMING readback {:?}", t0.elapsed());
     got.retain(|e| e.path != b"src");
     if got != repo::expected(&src) {
         return Err("retry-snapshot-differs".into());
@@ -535,26 +529,22 @@ fn big_state_ok(variant: u64, seed: u64, h: &RepoHandle, live: &[(SnapshotFile, 
     Ok(())
 }
 
-/// fault positions around every index file written before the last pack write (= the indexer's auto-saves): the two
-/// pack writes before it, the index write itself, the two operations after it — and the first and last operation
+/// fault positions around every index file written before the last pack write (= the indexer's auto-saves): the pack
+/// write before it, the index write itself and the operation after it (quick); thorough: two more on each side, the first
+/// and the last operation and four random ones
 fn big_ks(log: &[LogOp], thorough: bool, seed: u64) -> Vec<usize> {
     let n = log.len();
     let last_pack = log.iter().rposition(|o| o.tpe == FileType::Pack && o.write).unwrap_or(0);
     let mut v: BTreeSet<usize> = BTreeSet::new();
+    let d = if thorough { 3 } else { 1 };
     for (i, o) in log.iter().enumerate() {
         if o.tpe == FileType::Index && o.write && i < last_pack {
-            for d in 0..=2usize {
-                if i >= d {
-                    _ = v.insert(i - d);
-                }
-                if thorough && i + d < n {
-                    _ = v.insert(i + d);
-                }
+            for k in i.saturating_sub(d)..=i + d {
+                _ = v.insert(k);
             }
-            _ = v.insert(i + 1);
         }
     }
-    if thorough {
+    if thorough && !v.is_empty() {
         _ = v.insert(0);
         _ = v.insert(n - 1);
         let mut r = Rng::new(seed ^ 0xb16);
@@ -617,7 +607,7 @@ fn parse_big_spec(s: &str) -> Option<(u64, u64, bool)> {
 
 pub fn gen_big(variant: u64, seed: u64, thorough: bool) -> String {
     let spec = format!("{variant},{seed},{}", if thorough { "t" } else { "q" });
-    let fallback = |why: String| format!("c03 big {spec} - X{}", why.split_whitespace().next().unwrap_or("?"));
+    let fallback = |why: String| format!("c03 big {spec} - X{} -", why.split_whitespace().next().unwrap_or("?"));
     let scn = match big_prestate(variant, seed) {
         Ok(s) => s,
         Err(e) => return fallback(e),
@@ -631,7 +621,19 @@ pub fn gen_big(variant: u64, seed: u64, thorough: bool) -> String {
     match abstract_tokens_classes(&scn.h, &before, &after, &log) {
         Ok((pre, run)) => {
             let j = |v: Vec<String>| if v.is_empty() { "-".to_string() } else { v.join(";") };
-            format!("c03 big {spec} {} {}", j(pre), j(run))
+            // blob counts of the packs written by the run, under the file numbers of the trace (`P<n>:…`)
+            let counts: BTreeMap<Id, usize> = match all_index(&scn.h, &after) {
+                Ok(ix) => ix.iter().flat_map(|(_, f)| f.packs.iter()).map(|p| (*p.id, p.blobs.len())).collect(),
+                Err(e) => return fallback(e),
+            };
+            let mut cs = vec![];
+            for (o, tok) in log.iter().filter(|o| o.applied).zip(run.iter()) {
+                if o.tpe == FileType::Pack && o.write {
+                    let n = tok[1..].split(':').next().unwrap_or("0");
+                    cs.push(format!("{n}={}", counts.get(&o.id).copied().unwrap_or(0)));
+                }
+            }
+            format!("c03 big {spec} {} {} {}", j(pre), j(run), if cs.is_empty() { "-".into() } else { cs.join(".") })
         }
         Err(e) => fallback(e),
     }
@@ -640,7 +642,7 @@ pub fn gen_big(variant: u64, seed: u64, thorough: bool) -> String {
 pub fn exec(toks: &[&str]) -> String {
     let toks: Vec<String> = toks.iter().map(|s| (*s).to_string()).collect();
     guarded(move || {
-        if toks.len() == 4 && toks[0] == "big" {
+        if toks.len() == 5 && toks[0] == "big" {
             return match parse_big_spec(&toks[1]) {
                 Some((v, seed, th)) => exec_big(v, seed, th),
                 None => "bad-op".into(),
@@ -678,6 +680,15 @@ pub fn gen_one(cmd: &str, seed: u64, thorough: bool) -> String {
 }
 
 pub fn generate(thorough: bool, rng: &mut Rng, ops: &mut Vec<String>, stats: &mut Stats) {
+    // the indexer's auto-save: quick one case (variant 0 or 1), thorough every variant twice
+    let bigs: Vec<u64> = if thorough { vec![0, 1, 2, 0, 1, 2] } else { vec![rng.below(2)] };
+    for variant in bigs {
+        let seed = rng.below(1_000_000);
+        let line = guarded(move || gen_big(variant, seed, thorough));
+        stats.hit(format!("cmd.big{variant}"));
+        stats.add("trace.ops", line.split(' ').nth(4).map_or(0, |r| r.split(';').count() as u64));
+        ops.push(line);
+    }
     let rounds = if thorough { 8 } else { 2 };
     for _ in 0..rounds {
         for cmd in CMDS {
